@@ -40,6 +40,15 @@ ASSUMPTIONS = [
     "under hash_method 'b' (relabelling-invariant by intent) asserted: validity of the returned tree, and that a query is served without search only if the same contraction up to label names was stored before",
 ]
 
+def known_hash_b_sliced(spec, v):
+    """Open finding: under hash_method='b' a permutation of equal-sized labels
+    shares the entry, but the sliced labels are stored by NAME and applied to
+    whatever carries that name in the new query."""
+    return spec.get("hash_method") == "b" and bool(spec.get("slicing")) and "[hash_method='b']" in v
+
+
+KNOWN = {"hash_b_sliced_labels_by_name": known_hash_b_sliced}
+
 COUNT = "verif-count"
 _calls = {"n": 0}
 
@@ -74,9 +83,9 @@ def histories(draw):
             st.fixed_dictionaries(
                 {
                     "op": st.sampled_from(["search", "search", "search", "call", "update_from_tree", "new_object"]),
-                    "variant": st.sampled_from(["same", "same", "perm_in", "perm_out", "resize", "move", "out_change", "swap_labels", "rename", "add_scalar"]),
+                    "variant": st.sampled_from(["same", "same", "perm_in", "perm_out", "resize", "move", "out_change", "swap_labels", "swap_equal", "rename", "add_scalar"]),
                     "vk": st.integers(0, 20),
-                    "objmode": st.sampled_from(["shared", "fresh", "inplace"]),
+                    "objmode": st.sampled_from(["shared", "fresh", "inplace", "fresh_tuple", "shared_tuple", "np_sizes"]),
                     "obj": st.integers(0, 2),
                     "overwrite": st.sampled_from([False, False, False, True, "improved"]),
                     "cache_only": st.sampled_from([False, False, False, True]),
@@ -174,6 +183,17 @@ def make_query(net, variant, k, objmode):
     elif variant == "add_scalar":
         # one more (scalar) tensor: a contraction over N + 1 tensors
         inputs = inputs + [[]] * (1 + k % 2)
+    elif variant == "swap_equal" and len(sizes) >= 2:
+        # two labels of the SAME size trade places everywhere: the same
+        # contraction up to label names (a relabelling-invariant fingerprint
+        # may share the entry - but what is stored by name must be translated)
+        labs = sorted(sizes)
+        pairs = [(a, b) for i, a in enumerate(labs) for b in labs[i + 1:] if sizes[a] == sizes[b]]
+        if pairs:
+            a, b = pairs[k % len(pairs)]
+            sw = {a: b, b: a}
+            inputs = [[sw.get(ix, ix) for ix in t] for t in inputs]
+            output = [sw.get(ix, ix) for ix in output]
     elif variant == "swap_labels" and len(sizes) >= 2:
         # two labels of different size trade places everywhere (the size_dict
         # stays as it is): same incidence structure, same {label: size}, but the
@@ -200,8 +220,17 @@ def make_query(net, variant, k, objmode):
             inputs[src[k % len(src)]].remove(ix)
             inputs[dst[k % len(dst)]].append(ix)
     # build label objects
-    if objmode in ("shared", "inplace"):
+    if objmode in ("shared", "inplace", "np_sizes"):
         objs = {ix: label_name(ix) for ix in sizes}
+        get = objs.__getitem__
+    elif objmode == "fresh_tuple":
+        # labels that are tuples holding strings, every string a new object
+        def get(ix):
+            return ("".join(["bo", "nd"]), "".join(["ix_", ix]))
+    elif objmode == "shared_tuple":
+        # equal labels, but all of them hold the very same 'bond' string object
+        bond = "".join(["bo", "nd"])
+        objs = {ix: (bond, label_name(ix)) for ix in sizes}
         get = objs.__getitem__
     else:
         def get(ix):
@@ -210,6 +239,11 @@ def make_query(net, variant, k, objmode):
     q_inputs = tuple(tuple(get(ix) for ix in t) for t in inputs)
     q_output = tuple(get(ix) for ix in output)
     q_sizes = {get(ix): d for ix, d in sizes.items()}
+    if objmode == "np_sizes":
+        # the same sizes as numpy integers (all but the first one)
+        import numpy as _np
+
+        q_sizes = {ix: (d if j == 0 else _np.int64(d)) for j, (ix, d) in enumerate(q_sizes.items())}
     if objmode == "inplace":
         # the very same list / dict objects as last time, with new content
         c = _INPLACE
@@ -295,6 +329,7 @@ def run_case(spec, sub=None):
         # model: fingerprint -> list of (path, sliced, score) ever stored
         model = {}
         stored_b = set()  # relabelling-invariant identities of everything ever stored
+        stored_b_scores = {}  # ... -> scores stored for them
         latest = {}  # fingerprint -> (path, sliced) that a store most recently wrote
         best_score = {}  # fingerprint -> lowest score read back under 'improved'
 
@@ -351,6 +386,7 @@ def run_case(spec, sub=None):
                 ans = (tuple(map(tuple, tree.get_path())), tuple(tree.sliced_inds), tree.get_score())
                 model.setdefault(fp, []).append(ans)
                 stored_b.add(fpb)
+                stored_b_scores.setdefault(fpb, []).append(ans[2])
                 if spec["hash_method"] == "a":
                     mode = op["uft_overwrite"]
                     if fp not in latest or mode is True:
@@ -444,6 +480,7 @@ def run_case(spec, sub=None):
                 else:
                     model.setdefault(fp, []).append(None)
                 stored_b.add(fpb)
+                stored_b_scores.setdefault(fpb, []).append(None if ans is None else ans[2])
                 # what the search returned is what the cache now holds (under
                 # 'improved' the better of old and new is both kept and returned)
                 latest[fp] = ans if spec["kind"] == "hyper" or ans is None else (ans[0], ans[1], None)
@@ -458,6 +495,25 @@ def run_case(spec, sub=None):
                         "the stored path and score were made for another network"
                     )
                     break
+                if ans is not None and spec["kind"] == "hyper" and spec["hash_method"] == "b":
+                    # relabelling-invariant fingerprint: the answer served must
+                    # still be one that was stored for this contraction - its
+                    # sliced labels belong to the query and its score is a stored one
+                    labs_q = {ix for t in asked_inputs for ix in t}
+                    known_scores = [x for x in stored_b_scores.get(fpb, []) if x is not None]
+                    if any(ix not in labs_q for ix in ans[1]):
+                        viol.append(
+                            f"{what}: [hash_method='b'] served a tree sliced on {list(ans[1])}, labels the queried contraction does not have"
+                        )
+                        break
+                    if known_scores and all(x is not None for x in stored_b_scores.get(fpb, [])) and not any(
+                        abs(x - ans[2]) < 1e-9 for x in known_scores
+                    ):
+                        viol.append(
+                            f"{what}: [hash_method='b'] the tree served from the cache scores {ans[2]}, the scores stored for "
+                            f"this contraction are {known_scores}: the stored sliced labels were applied to other bonds"
+                        )
+                        break
                 if spec["hash_method"] == "a" and ans is not None and latest.get(fp) is not None:
                     lt = latest[fp]
                     if lt[0] != ans[0] or tuple(lt[1]) != tuple(ans[1]):
